@@ -6,6 +6,7 @@
 #   /repo, runs the property's quick check and reverts.
 export GOFLAGS=-mod=mod GOPROXY=off GOSUMDB=off GOTOOLCHAIN=local
 ID=$1; SRC=$2; PROP=$3
+if [ -n "$(git -C /repo status --porcelain --untracked-files=no)" ]; then echo "REFUSING: /repo has uncommitted changes (they would be lost by the revert)"; exit 2; fi
 PKG=${4:-$(cat $SRC/demo_pkg.txt 2>/dev/null | tr -d ' \n')}
 PKG=${PKG:-lib/btc}
 DST=/verif/seeded/$ID
